@@ -169,6 +169,7 @@ func (w *c09World) relay(s, r []byte, what string) {
 
 // VerifC09Relay: every rejection branch of dispatchConnection behaves as a transparent relay.
 func VerifC09Relay() {
+	vapi.SetPreemptBound(vapi.Param("preempt", 0))
 	branch := vapi.Pick("branch", 7)
 	vConcrete = false
 	w := c09Setup()
